@@ -266,57 +266,111 @@ func (p *pkg) fieldRegexIn(fn, field string) string {
 	return res
 }
 
-// callsWithConds: every call `<x>.<sel>(...)` (or `<sel>(...)`) in func/method fn of recv, in source order: the
-// argument texts, then after "|" the if-conditions that enclose the call, outermost first ("!(c)" for an else branch)
-func (p *pkg) callsWithConds(fn, recv, sel string) []string {
-	txt := func(e ast.Node) string {
-		var sb strings.Builder
-		printer.Fprint(&sb, token.NewFileSet(), e)
-		return sb.String()
-	}
-	var out []string
+func nodeText(e ast.Node) string {
+	var sb strings.Builder
+	printer.Fprint(&sb, token.NewFileSet(), e)
+	return sb.String()
+}
+
+// walkConds visits every node under body and tells visit the conditions that enclose it, outermost first:
+// if-conditions ("!(c)" on the else side, else-if chains included) and switch cases ("case a, b" / "default").
+func walkConds(body ast.Node, visit func(n ast.Node, conds []string)) {
 	var walk func(n ast.Node, conds []string)
+	var doIf func(is *ast.IfStmt, conds []string)
+	with := func(conds []string, c string) []string { return append(append([]string(nil), conds...), c) }
+	doIf = func(is *ast.IfStmt, conds []string) {
+		if is.Init != nil {
+			walk(is.Init, conds)
+		}
+		walk(is.Cond, conds)
+		walk(is.Body, with(conds, nodeText(is.Cond)))
+		switch e := is.Else.(type) {
+		case nil:
+		case *ast.IfStmt:
+			doIf(e, with(conds, "!("+nodeText(is.Cond)+")"))
+		default:
+			walk(e, with(conds, "!("+nodeText(is.Cond)+")"))
+		}
+	}
 	walk = func(n ast.Node, conds []string) {
+		if is, ok := n.(*ast.IfStmt); ok {
+			doIf(is, conds)
+			return
+		}
 		ast.Inspect(n, func(m ast.Node) bool {
-			if m == n || m == nil {
+			if m == nil {
 				return true
 			}
-			if is, ok := m.(*ast.IfStmt); ok {
-				if is.Init != nil {
-					walk(is.Init, conds)
+			if m != n {
+				if is, ok := m.(*ast.IfStmt); ok {
+					doIf(is, conds)
+					return false
 				}
-				walk(is.Cond, conds)
-				walk(is.Body, append(append([]string(nil), conds...), txt(is.Cond)))
-				if is.Else != nil {
-					walk(is.Else, append(append([]string(nil), conds...), "!("+txt(is.Cond)+")"))
-				}
-				return false
-			}
-			if call, ok := m.(*ast.CallExpr); ok {
-				name, prefix := "", ""
-				switch f := call.Fun.(type) {
-				case *ast.SelectorExpr:
-					name = f.Sel.Name
-					// "os.*": every call into that package, recorded with the function's name
-					if id, ok := f.X.(*ast.Ident); ok && strings.HasSuffix(sel, ".*") && id.Name == strings.TrimSuffix(sel, ".*") {
-						prefix = id.Name + "." + name + ": "
-						name = sel
+				if cc, ok := m.(*ast.CaseClause); ok {
+					label := "default"
+					if len(cc.List) > 0 {
+						var es []string
+						for _, e := range cc.List {
+							es = append(es, nodeText(e))
+						}
+						label = "case " + strings.Join(es, ", ")
 					}
-				case *ast.Ident:
-					name = f.Name
-				}
-				if name == sel {
-					var as []string
-					for _, a := range call.Args {
-						as = append(as, txt(a))
+					for _, st := range cc.Body {
+						walk(st, with(conds, label))
 					}
-					out = append(out, prefix+strings.Join(as, ", ")+" | "+strings.Join(conds, " && "))
+					return false
 				}
 			}
+			visit(m, conds)
 			return true
 		})
 	}
-	walk(p.funcDeclRecv(fn, recv).Body, nil)
+	walk(body, nil)
+}
+
+// callsWithConds: every call `<x>.<sel>(...)` (or `<sel>(...)`) in func/method fn of recv, in source order: the
+// argument texts, then after "|" the conditions that enclose the call.  "os.*": every call into that package
+// (or on that identifier), recorded with the function's name.
+func (p *pkg) callsWithConds(fn, recv, sel string) []string {
+	var out []string
+	walkConds(p.funcDeclRecv(fn, recv).Body, func(m ast.Node, conds []string) {
+		call, ok := m.(*ast.CallExpr)
+		if !ok {
+			return
+		}
+		name, prefix := "", ""
+		switch f := call.Fun.(type) {
+		case *ast.SelectorExpr:
+			name = f.Sel.Name
+			if id, ok := f.X.(*ast.Ident); ok && strings.HasSuffix(sel, ".*") && id.Name == strings.TrimSuffix(sel, ".*") {
+				prefix = id.Name + "." + name + ": "
+				name = sel
+			}
+		case *ast.Ident:
+			name = f.Name
+		}
+		if name == sel {
+			var as []string
+			for _, a := range call.Args {
+				as = append(as, nodeText(a))
+			}
+			out = append(out, prefix+strings.Join(as, ", ")+" | "+strings.Join(conds, " && "))
+		}
+	})
+	return out
+}
+
+// assignsWithConds: every assignment `<lhs> = <rhs>` in func/method fn of recv, in source order: the right-hand
+// side, then after "|" the enclosing conditions
+func (p *pkg) assignsWithConds(fn, recv, lhs string) []string {
+	var out []string
+	walkConds(p.funcDeclRecv(fn, recv).Body, func(m ast.Node, conds []string) {
+		if as, ok := m.(*ast.AssignStmt); ok && len(as.Lhs) == 1 && len(as.Rhs) == 1 && as.Tok == token.ASSIGN {
+			if id, ok := as.Lhs[0].(*ast.Ident); ok && id.Name == lhs {
+				out = append(out, nodeText(as.Rhs[0])+" | "+strings.Join(conds, " && "))
+			}
+		}
+	})
 	return out
 }
 
@@ -1011,6 +1065,21 @@ func main() {
 		l := append(tqp.callsWithConds("DoTransfer", "basicDownloadAdapter", "os.*"), tqp.callsWithConds("DoTransfer", "basicDownloadAdapter", "RobustRename")...)
 		facts["basicDownloadFsCalls"] = l
 		return "def basicDownloadFsCalls : List Bytes := " + bytesList(l)
+	})
+	// ---- config/git_fetcher.go (C11): under which conditions a key of a safe-only source is let through
+	emit("allowedAssignments", func() string {
+		l := cfg.assignsWithConds("readGitConfig", "", "allowed")
+		ig := cfg.assignsWithConds("readGitConfig", "", "ignored")
+		facts["allowedAssignments"] = l
+		facts["ignoredAssignments"] = ig
+		return "def allowedAssignments : List Bytes := " + bytesList(l) + "\ndef ignoredAssignments : List Bytes := " + bytesList(ig)
+	})
+	// ---- lfs/attribute.go (C20): Attribute.Install only normalises and sets keys; it has no way back that
+	// would remove a section
+	emit("attributeInstallCalls", func() string {
+		l := lfs.callsWithConds("Install", "Attribute", "a.*")
+		facts["attributeInstallCalls"] = l
+		return "def attributeInstallCalls : List Bytes := " + bytesList(l)
 	})
 	// ---- commands/command_unlock.go (C16): the guard of `unlock --id` finds the lock's path in the local cache
 	// and, failing that, asks the server
